@@ -67,10 +67,34 @@ def gen_status(rng, units, boundary=False):
     return s
 
 
+def spec_tokens(s):
+    """abstract status -> tokens of the `spec_status` driver kind (the Coq encoder of TypedSpec.v)"""
+    toks = []
+    for f, k, _ in t.STATUS_FIELDS:
+        if f not in s or f in ("songid", "nextsongid"):
+            continue
+        v = s[f]
+        if f in ("song", "nextsong"):
+            toks.append(f"{f}={v}/{s[f + 'id']}")
+        elif k in ("u8", "u32", "u64", "usize", "secs", "ms"):
+            toks.append(f"{f}={v}")
+        elif k == "bool":
+            toks.append(f"{f}={int(v)}")
+        elif k in ("state", "single"):
+            toks.append(f"{f}={v}")
+        else:
+            toks.append(f"{f}={hx(v)}")
+    return "spec_status " + " ".join(toks)
+
+
+MIRROR = []     # (spec_status case, Python mirror's encoding) — compared with the Coq encoder in run()
+
+
 def gen(ctx):
     rng = ctx.rng
     cases, expect = [], []
     dist = {}
+    del MIRROR[:]
 
     def add(kind, ident, params, fields, exp, binary=None, permute=False):
         fields = list(fields)
@@ -99,6 +123,7 @@ def gen(ctx):
     for n, sub in enumerate(subsets):
         s = gen_status(rng, [UNITS[i] for i in sub], boundary=(n % 3 == 0))
         add("status", "Status", None, t.enc_status(s), t.expect_status(s), permute=(n % 2 == 1))
+        MIRROR.append((spec_tokens(s), ",".join(f"{hx(a)}:{hx(v)}" for a, v in t.enc_status(s))))
     # single omitted (servers before 0.15): the documented default
     s = gen_status(rng, UNITS)
     del s["single"]
@@ -230,6 +255,14 @@ def run(ctx, only=None):
     impl = ctx.run_impl(cases)
     model = ctx.run_model(cases) if ctx.model_ok else None
     dis = t.compare(cases, impl, model) if model is not None else []
+    if model is not None and MIRROR and only is None:
+        # the Python mirror of the spec-side encoder must agree with TypedSpec.enc_status (extracted from Coq)
+        coq = ctx.run_model([m[0] for m in MIRROR])
+        bad = [(m[0], m[1], c) for m, c in zip(MIRROR, coq) if m[1] != c]
+        if bad:
+            ctx.broken.append(("spec-mirror", "typedlib.enc_status vs TypedSpec.enc_status",
+                               f"{len(bad)} abstract replies encode differently, e.g. {bad[0][0][:200]}: python {bad[0][1][:300]} coq {bad[0][2][:300]}"))
+        ctx.notes.append(f"spec mirror: {len(MIRROR)} abstract status replies encoded identically by the Python mirror and by TypedSpec.enc_status")
     fails = []
     for c, out, exp in zip(cases, impl, expect):
         if exp is None:
@@ -240,6 +273,7 @@ def run(ctx, only=None):
             toks = c.split(" ")
             fails.append(Failure(c, f"{toks[1]} {toks[2]} on reply {unhexs(toks[3])!r}\n  value the server sent (spec): {exp[:700]}\n"
                                     f"  value decoded by the code:    {out[:700]}", extra={"expect": exp}))
+    fails.sort(key=lambda f: len(f.case))      # report the shortest failing input first
     if only is not None:
         for i, c in enumerate(cases):
             print("case :", c[:800], "\nimpl :", impl[i][:800])
